@@ -1,7 +1,8 @@
 """C04 — merging never changes the logical content: only the merge protocol."""
-from ..model import (Ev, must_precede, must_pass, trace_through, trace_back, op_local, op_place, place_local, is_bare, provenance, proj_fields)
+from ..model import (Ev, must_precede, must_pass, trace_through, trace_back, op_local, op_place, place_local, is_bare, provenance, proj_fields,
+                     reach_positions, flows_to, ok_continuation_events)
 from ..rules import (rule_precede, rule_must_pass, rule_result_checked, rule_between, get_body, calls_to, site, short, rule_who_may_call,
-                     option_root, guard_live_at, locals_of_type, local_kill_events)
+                     option_root, guard_live_at, locals_of_type, local_kill_events, rule_after_loop)
 
 I = "tantivy::indexer::"
 SU = I + "segment_updater::"
@@ -125,24 +126,85 @@ def r1(rep, prog):
         inside = [e for e in opens if e.b in loop and ab in body.reachable((e.b,))]
         rep.check(not bad and not inside, R, "IndexMerger::open runs only after the advance loop", "dominated by the loop's iterator and outside the loop body",
                   "IndexMerger::open is reachable before / inside the loop that advances the deletes", site=site(body, opens[0].b) if opens else body.span)
-    # the segments given to the merger are built after the loop from entry.meta()
-    for b, t in calls_to(prog, body, OPEN):
-        lv = provenance(body, op_local(t["args"][2]), extra_transparent=tuple(prog.names(r"Deref::deref$|Index::index$|Vec<T, A> as core::ops::index::Index<I>>::index$")))
-        has_collect = any(l[0] == "call" and l[1].endswith("Iterator::collect") for l in lv)
-        rep.check(has_collect, R, "the merger is opened on segments collected from the entries", "segments <- segment_entries.iter().map(..).collect()", "IndexMerger::open's segments do not come from the collected entries", site=site(body, b))
-    # the collecting closure uses entry.meta()
-    okm = False
-    for r_ in prog.body_refs(body):
-        cb = prog.body(r_)
-        if cb is not None and "{closure" in r_ and any(t.get("f", "").endswith("SegmentEntry::meta") for _, t in cb.calls()) and any(t.get("f", "").endswith("Index::segment") for _, t in cb.calls()):
-            okm = True
-    rep.check(okm, R, "merger input segments carry the (advanced) entry metas", "closure: index.segment(entry.meta().clone())", "merge no longer builds the merger's segments from the entries' metas")
-    COLL = prog.names(r"Iterator::collect$")
-    colls = [b for b, t in calls_to(prog, body, COLL)]
-    advb = [b for b, t in cs]
-    if colls and advb:
-        later = [c for c in colls if c in body.reachable(tuple(body.succ(advb[0]))) and advb[0] not in body.reachable(tuple(body.succ(c)))]
-        rep.check(bool(later), R, "the segments are collected after the advance loop", "collect() is only reachable after the loop exit", "segments are collected before deletes were advanced", site=body.span)
+    # every Segment view that can reach the merger is built from an entry's meta AFTER that entry's deletes
+    # were advanced: after the loop, or later in the same iteration.  A Segment built before the advance
+    # may only be handed to advance_deletes itself.
+    SEGF = {"tantivy::index::index::Index::segment"}
+    if cs:
+        ab = cs[0][0]
+        loop = body.reachable(tuple(body.succ(ab)))
+        loop = {x for x in loop if ab in body.reachable((x,))}
+        adv_ok, _chk = ok_continuation_events(body, ab)
+        nexts_b = [b for b, t in body.calls() if t.get("f", "").endswith("Iterator::next") and b in loop]
+        post, pre = [], []
+        # sites in merge itself
+        for sb, st in calls_to(prog, body, SEGF):
+            if sb not in loop:
+                after = not must_precede(body, [Ev(x, "term") for x in nexts_b], [Ev(sb, "term")]) if nexts_b else False
+                (post if after else pre).append(("merge", sb, st))
+                continue
+            # inside the loop: from the start of an iteration, is the site reachable without the Ok continuation of advance_deletes?
+            starts = []
+            for nb in nexts_b:
+                sw = body.term(nb).get("to")
+                tt = body.term(sw) if sw is not None else None
+                if tt and tt["k"] == "switch":
+                    starts += [tg for v, tg in tt["vals"] if v != "0"] or [tt["else"]]
+            reached = reach_positions(body, list(adv_ok) + [Ev(nb, "term") for nb in nexts_b], starts=tuple(starts))
+            early = sb in reached and reached[sb] >= len(body.stmts(sb))
+            (pre if early else post).append(("merge", sb, st))
+        # sites in closures created by merge: the closure must be created after the loop
+        for r_ in sorted(prog.body_refs(body)):
+            cb = prog.body(r_)
+            if cb is None or "{closure" not in r_ or not r_.startswith(fid):
+                continue
+            if not any(True for _ in calls_to(prog, cb, SEGF)):
+                continue
+            created = [bi for bi in body.normal_blocks() for st_ in body.stmts(bi) if st_.get("r") == "agg" and st_.get("def") == r_]
+            okc = bool(created) and all(bi not in loop and not must_precede(body, [Ev(x, "term") for x in nexts_b], [Ev(bi, "enter")]) for bi in created)
+            (post if okc else pre).append((r_, created[0] if created else 0, None))
+        rep.check(bool(post), R, "the merger's input segments are built from entry metas after the deletes were advanced", "%d site(s) of Index::segment after the advance (loop exit or later in the iteration)" % len(post),
+                  "merge builds no Segment view after advance_deletes: the merger reads the sources without the deletes up to target_opstamp", site=body.span)
+        for where, sb, st in pre:
+            if st is None:
+                rep.fail(R, "a segment-building closure is created before the advance loop finished", "in merge, the closure %s builds Segment views from entry metas before the deletes of every entry were advanced" % short(where), site=site(body, sb))
+                continue
+            d = st.get("dest")
+            locs = flows_to(body, d) if isinstance(d, int) else set()
+            other = []
+            for ub, ut in body.calls():
+                for ai, a in enumerate(ut.get("args", [])):
+                    l = op_local(a)
+                    if l in locs and ub != sb:
+                        f = ut.get("res") or ut.get("f") or ""
+                        if f == ADV and ai == 0:
+                            continue
+                        other.append(short(f))
+            # references taken to the value (e.g. `segment.clone()`) count as other uses of the stale view only if the
+            # value itself is then moved elsewhere; a clone handed to advance_deletes is fine
+            moved_elsewhere = [f for f in other if not f.endswith("Clone::clone")]
+            refs = [bi for bi in body.normal_blocks() for s_ in body.stmts(bi) if s_.get("r") == "ref" and place_local(s_["p"]) in locs]
+            cloned_to = []
+            for bi in refs:
+                pass
+            rep.check(not moved_elsewhere, R, "a Segment view built before the advance is only given to advance_deletes", "pre-advance view -> advance_deletes",
+                      "merge keeps a Segment view that was built from the entry's meta BEFORE advance_deletes (it carries the old delete opstamp) and hands it to %s: the merger does not see the deletes up to target_opstamp"
+                      % sorted(set(moved_elsewhere)), site=site(body, sb))
+    merged_cursor(rep, prog, R)
+
+
+def merged_cursor(rep, prog, R):
+    """the merged entry's delete cursor is read after every source was advanced (shared with C02-R7)"""
+    fid = SU + "merge"
+    body = get_body(rep, prog, R, fid)
+    if body is None:
+        return
+    DC = {I + "segment_entry::SegmentEntry::delete_cursor"}
+    if calls_to(prog, body, {ADV}) and calls_to(prog, body, DC):
+        rule_after_loop(rep, prog, R, fid, {ADV}, DC, "advance_deletes over the source entries", "the delete cursor handed to the merged segment",
+                        key="the merged segment inherits a delete cursor read after the advance loop")
+    else:
+        rep.fail(R, "the merged segment inherits a delete cursor read after the advance loop", "cannot establish: SegmentEntry::delete_cursor / advance_deletes not found in merge", site=body.span)
 
 
 def r2(rep, prog):
